@@ -124,8 +124,10 @@ def nativePure (name : String) (self : Value N) (args : List (Value N)) (st : St
   let need (n : Nat) (k : Option (NRes N)) : Option (NRes N) := if args.length < n then some (.error tooFew, st) else k
   let strArgNatives := ["Dictionary#set", "Dictionary#get", "Dictionary#remove", "Dictionary#contains", "String#contains",
     "String#split", "String#find", "String#replace", "System#string"]
-  let s0 := toStrH st a0
-  let s1 := toStrH st a1
+  -- (only the natives that take a string convert their argument: `ToString` of a container is expensive and, for a
+  --  self-containing one, does not return in the C++)
+  let s0 := if strArgNatives.contains name then toStrH st a0 else some ""
+  let s1 := if name == "String#replace" then toStrH st a1 else some ""
   if strArgNatives.contains name && (s0.isNone || (name == "String#replace" && s1.isNone)) then un "cyclic container to string" else
   let a0s := s0.getD ""
   let a1s := s1.getD ""
